@@ -1,6 +1,6 @@
 \* negative control: only directions above 270 are wrapped
 CONSTANTS
-  HalfWindows = {22}
+  HalfWindows = {44}
   WrapStyle = "one_sided"
   Rotations = {90}
 INIT Init
